@@ -104,7 +104,7 @@ theorem moveClimbLoop_spec {g : Geo} {fuel : Nat} {loc : Pos} {tape rest : Tape}
     · simp at h
     · simp at h
 
-theorem moveClimb_spec {g : Geo} {loc : Option Pos} {e : Rat} {tape rest : Tape} {p : Pos}
+theorem moveClimb_spec {g : Geo} {loc : Option Pos} {e : Option Rat} {tape rest : Tape} {p : Pos}
     (h : moveClimb g loc e tape = .ok (p, rest)) :
     rest <:+ tape ∧ Draw.feas p true ∈ tape ∧ Origin g tape p := by
   unfold moveClimb at h
@@ -151,6 +151,7 @@ theorem localPropose_spec {cfg : LocalCfg} {s : Local} {p : Pos} {rest : Tape} (
   split at h
   · exact randomIteration_spec (fun t r q hq => moveClimb_spec hq) h
   · exact randomIteration_spec (fun t r q hq => moveClimb_spec hq) h
+  · exact randomIteration_spec (fun t r q hq => moveClimb_spec hq) h
   · exact moveClimb_spec h
   · refine randomIteration_spec (fun t r q hq => ?_) h
     split at hq
@@ -187,7 +188,7 @@ theorem localInitPos_spec {s s' : Local} {p : Pos} (h : localInitPos s = .ok (p,
 /-- which evaluate a class runs, as a function of an acceptance decision -/
 def evalWith (cfg : LocalCfg) (t : Tracker) (score : F) (accept : Bool) : Tracker :=
   match cfg.kind with
-  | .hillClimbing | .restart _ | .repulsing _ => Tracker.hcEvaluate cfg.nNeighbours t score
+  | .hillClimbing | .restart _ | .repulsing _ | .randomAnnealing => Tracker.hcEvaluate cfg.nNeighbours t score
   | .randomSearch => Tracker.plainEvaluate t score
   | .stochastic => Tracker.stochasticEvaluate cfg.nNeighbours t score accept
 
@@ -198,6 +199,7 @@ theorem localEvaluate_spec {cfg : LocalCfg} {s s' : Local} {score : F} (h : loca
   cases hk : cfg.kind with
   | hillClimbing => simp only [hk, Except.ok.injEq] at h; subst h; exact ⟨List.suffix_refl _, rfl, false, rfl⟩
   | restart n => simp only [hk, Except.ok.injEq] at h; subst h; exact ⟨List.suffix_refl _, rfl, false, rfl⟩
+  | randomAnnealing => simp only [hk, Except.ok.injEq] at h; subst h; exact ⟨List.suffix_refl _, rfl, false, rfl⟩
   | randomSearch => simp only [hk, Except.ok.injEq] at h; subst h; exact ⟨List.suffix_refl _, rfl, false, rfl⟩
   | repulsing f => simp only [hk, Except.ok.injEq] at h; subst h; exact ⟨List.suffix_refl _, rfl, false, rfl⟩
   | stochastic =>
@@ -220,6 +222,7 @@ theorem localEvaluate_total (cfg : LocalCfg) (s : Local) (score : F) :
   cases hk : cfg.kind with
   | hillClimbing => exact Or.inl ⟨_, rfl⟩
   | restart n => exact Or.inl ⟨_, rfl⟩
+  | randomAnnealing => exact Or.inl ⟨_, rfl⟩
   | randomSearch => exact Or.inl ⟨_, rfl⟩
   | repulsing f => exact Or.inl ⟨_, rfl⟩
   | stochastic =>
@@ -248,6 +251,7 @@ theorem grounded_evalWith {log : Log} {t : Tracker} (g : Grounded log t) (cfg : 
     Grounded (log ++ [(t.posNew, s)]) (evalWith cfg t s accept) := by
   unfold evalWith
   split
+  · exact grounded_hcEvaluate g _ s
   · exact grounded_hcEvaluate g _ s
   · exact grounded_hcEvaluate g _ s
   · exact grounded_hcEvaluate g _ s
